@@ -1049,7 +1049,7 @@ type fidClient struct {
 	// one more cookie given as a Cookie header through the generic header API ("" = none)
 	ckHeader string
 	timeout  time.Duration
-	baseURL                   bool
+	baseURL  bool
 }
 
 type fidReq struct {
